@@ -449,8 +449,8 @@ fn gen_tuple_pat(rng: &mut Rng, ng: &mut NameGen, depth: u32) -> Vec<Pat> {
     for i in 0..n {
         let is_first = i == 0;
         let is_last = i == n - 1;
-        // the single-element `(xs...)` is the shape of F-C02-2: not generated
-        if n > 1 && ((ell == 0 && is_first) || (ell == 1 && is_last)) {
+        // a sole `(xs...)` is generated too (F-C02-3, fixed): leading and trailing coincide
+        if (ell == 0 && is_first) || (ell == 1 && is_last) {
             ps.push(Pat::Pk(if rng.chance(3, 4) { Some(ng.next()) } else { None }));
             continue;
         }
@@ -1608,6 +1608,19 @@ fn fixed_cases(ctx: &mut Ctx) {
         let d4 = Def { params: vec![id(1), id(2), id(3), id(4)], variadic: false, caps: vec![], generator: false };
         ctx.push(bind_case(&d4, &Call { form: Form::Piped(false), args: piped }));
     }
+    // F-C02-3 / F-C02-4 (fixed): sole ellipsis patterns; generator calls with empty/short packs
+    for pk in [Pat::Pk(Some(1)), Pat::Pk(None)] {
+        let ds = Def { params: vec![Param { pat: Pat::Tup(vec![pk.clone()]), default: None }, id(2)], variadic: false, caps: vec![], generator: false };
+        for c in [V::T(vec![V::I(1), V::I(2), V::I(3)]), V::L(vec![V::I(1)]), V::T(vec![]), V::S("ab".into()), V::I(3)] {
+            ctx.push(bind_case(&ds, &Call { form: Form::Paren, args: vec![(c.clone(), false), (V::I(9), false)] }));
+        }
+    }
+    let dg = Def { params: vec![id(1), opt(2, V::I(20))], variadic: false, caps: vec![(3, V::I(30))], generator: true };
+    for args in [vec![e(), (V::I(1), false)], vec![(V::I(1), false), e()], vec![e(), e(), p(vec![1])], vec![p(vec![1]), e()], vec![p(vec![1, 2])]] {
+        for form in [Form::Paren, Form::Free, Form::Inst(false)] {
+            ctx.push(bind_case(&dg, &Call { form, args: args.clone() }));
+        }
+    }
     fixed_cases2(ctx);
 }
 
@@ -1788,7 +1801,9 @@ fn main() {
                                 }
                                 d.generator = (n_req + n_opt + n_caps + count + form) % 5 == 0;
                                 let c = gen_call(&mut rng, &d, count, n_packs, form);
-                                d.generator = d.generator && !shrinking_packs(&c);
+                                if d.generator && shrinking_packs(&c) {
+                                    ctx.rep.bump("bind:generator-call-with-short-packs");
+                                }
                                 ctx.push(bind_case(&d, &c));
                                 grid += 1;
                             }
@@ -1814,8 +1829,9 @@ fn main() {
             let n_packs = [0, 0, 1, 2, if thorough { 3 } else { 1 }][rng.below(5)];
             let form = rng.below(7);
             let c = gen_call(&mut rng, &d, count, n_packs, form);
-            let mut d = d.clone();
-            d.generator = d.generator && !shrinking_packs(&c);
+            if d.generator && shrinking_packs(&c) {
+                ctx.rep.bump("bind:generator-call-with-short-packs");
+            }
             let depth = d.params.iter().map(|p| pat_depth(&p.pat)).max().unwrap_or(0);
             ctx.rep.bump(&format!("bind:pattern-depth={}", depth));
             ctx.rep.bump(&format!("bind:packs={}", c.args.iter().filter(|a| a.1).count()));
@@ -1857,9 +1873,9 @@ fn main() {
     std::process::exit(ctx.rep.finish());
 }
 
-/// generation filter for the documented shape of F-C02-3: a *generator* function called with packed
-/// arguments that expand to fewer than 2 values per pack on average (the caller's register file
-/// is left shorter than its frame needs)
+/// the shape of F-C02-4 (fixed): a *generator* function called with packed arguments that expand to
+/// fewer than 2 values per pack on average (the caller's register file used to be left shorter than
+/// its frame needs); generated like any other call, only counted
 fn shrinking_packs(c: &Call) -> bool {
     let packs = c.args.iter().filter(|a| a.1).count();
     let total: usize = c.args.iter().filter(|a| a.1).map(|a| a.0.elems().map(|e| e.len()).unwrap_or(0)).sum();
